@@ -374,7 +374,7 @@ def received_chunks_owned(F, R):
         if 'CustomPayloadMarker' in f_.id:
             flav = 'custom'
         R.ob('PAIR', 'PAIR::%s::%s::received-chunk-owned-or-released' % (fnkey(f_), flav), bad is None, 'from the Some(chunk) arm of receive_impl() every path to the next receive_impl() / a return passes the construction of an owner (%s) or release_offset()%s' % (', '.join(sorted(x.rsplit('::', 1)[-1] for x in owners if x)), '' if bad is None else ' -- path without owner: blocks %s' % bad), rcv[0].where, f_)
-    R.floor('receive functions that take the received chunk apart', n, 5)
+    R.floor('receive functions that take the received chunk apart', n, 2)
 
 
 def check(F, R, tier):
